@@ -828,6 +828,14 @@ impl World {
         ctx.eval("C10.static_pristine");
         if let Some(k) = statics::pool().all_pristine() {
             f.push(Failure::new("C10.static_pristine", format!("static text #{k} was modified by {}", op.name())));
+            // a static text is data the caller shares with every other handle and with the &'static str itself
+            let t = statics::pool().texts[k];
+            let (lo, hi) = (t.as_ptr() as usize, t.as_ptr() as usize + t.len());
+            let target = op.mutated();
+            if (0..SLOTS).any(|i| Some(i as Slot) != target && post[i].as_ref().is_some_and(|o| o.kind == Kind::Static && o.ptr >= lo && o.ptr <= hi)) {
+                f.push(Failure::new("C02.static_text_modified", format!("{} wrote into static text #{k}, which another live handle borrows", op.name())));
+            }
+            statics::pool().restore();
             fatal = true;
         }
 
